@@ -15,7 +15,7 @@ from vpkit import common
 
 ID = "C26"
 N = {"quick": 300, "thorough": 6000}
-BUDGET = {"quick": 240.0, "thorough": 1200.0}
+BUDGET = {"quick": 240.0, "thorough": 900.0}
 RULE = ("case = a block of count/offset vectors: exhaustive small vectors (length<=5 over counts {0,1,2,5}, "
         "offsets {0.5,1,3}) in thorough, random vectors up to length 40, penalties and minimum "
         "constraints incl. zero counts and leading zeros; distinct = (helper, vector, parameters); "
